@@ -22,6 +22,8 @@ import (
 	"github.com/q191201771/lal/pkg/logic"
 	"github.com/q191201771/lal/pkg/remux"
 	"github.com/q191201771/lal/pkg/rtmp"
+	"github.com/q191201771/lal/pkg/rtsp"
+	"github.com/q191201771/lal/pkg/sdp"
 )
 
 type nopGroupObserver struct{}
@@ -40,16 +42,35 @@ func (nopRtmpObserver) OnNewRtmpSubSession(session *rtmp.ServerSession) error   
 func (nopRtmpObserver) OnDelRtmpSubSession(session *rtmp.ServerSession)                     {}
 
 // pushTarget is a stub origin: lal's own rtmp.Server collecting what a relay push delivers.
+type pushTargetSession struct {
+	t    *pushTarget
+	msgs []base.RtmpMsg
+}
+
+func (ts *pushTargetSession) OnReadRtmpAvMsg(msg base.RtmpMsg) {
+	ts.t.mu.Lock()
+	defer ts.t.mu.Unlock()
+	ts.msgs = append(ts.msgs, msg.Clone())
+}
+
 type pushTarget struct {
 	mu     sync.Mutex
+	sess   []*pushTargetSession // in order of arrival
 	msgs   []base.RtmpMsg
 	doneCh chan struct{}
 	newCh  chan struct{}
+	opened int
+	ended  int
 }
 
 func (t *pushTarget) OnRtmpConnect(session *rtmp.ServerSession, opa rtmp.ObjectPairArray) {}
 func (t *pushTarget) OnNewRtmpPubSession(session *rtmp.ServerSession) error {
-	session.SetPubSessionObserver(t)
+	t.mu.Lock()
+	ts := &pushTargetSession{t: t}
+	t.sess = append(t.sess, ts)
+	t.opened++
+	t.mu.Unlock()
+	session.SetPubSessionObserver(ts)
 	select {
 	case t.newCh <- struct{}{}:
 	default:
@@ -57,6 +78,9 @@ func (t *pushTarget) OnNewRtmpPubSession(session *rtmp.ServerSession) error {
 	return nil
 }
 func (t *pushTarget) OnDelRtmpPubSession(session *rtmp.ServerSession) {
+	t.mu.Lock()
+	t.ended++
+	t.mu.Unlock()
 	select {
 	case t.doneCh <- struct{}{}:
 	default:
@@ -88,6 +112,8 @@ func (h *hookCtx) OnMsg(msg base.RtmpMsg) { h.r.mu.Lock(); h.e.msgs++; h.r.mu.Un
 func (h *hookCtx) OnStop()                { h.r.mu.Lock(); h.e.stops++; h.r.mu.Unlock() }
 
 type fanConsumer struct {
+	broken bool
+	sdp    string
 	id   uint64
 	kind byte // r f w p t
 	conn *fakeConn
@@ -247,14 +273,14 @@ func runFanoutHistory(cfgTok, evTok string) string {
 	consumers := map[uint64]*fanConsumer{}
 	var order []uint64
 	var msgs []pubMsg
-	var tsBlobs, patBlobs [][]byte
+	var tsBlobs, patBlobs, sdpBlobs [][]byte
 	pushAttached := false
 	var pushSegments [][]base.RtmpMsg // one per input epoch
 
 	waitUntil := func(cond func() bool) bool {
 		start := time.Now()
 		deadline := start.Add(30 * time.Second)
-		next := start.Add(2 * time.Second)
+		next := start.Add(50 * time.Millisecond)
 		for time.Now().Before(deadline) {
 			if cond() {
 				return true
@@ -263,7 +289,7 @@ func runFanoutHistory(cfgTok, evTok string) string {
 			if time.Now().After(next) {
 				// a failed connection attempt is retried by the group on its next tick
 				group.Tick(1)
-				next = time.Now().Add(2 * time.Second)
+				next = time.Now().Add(50 * time.Millisecond)
 			}
 		}
 		return false
@@ -296,10 +322,6 @@ func runFanoutHistory(cfgTok, evTok string) string {
 			case <-target.doneCh:
 			case <-time.After(30 * time.Second):
 			}
-			target.mu.Lock()
-			pushSegments = append(pushSegments, target.msgs)
-			target.msgs = nil
-			target.mu.Unlock()
 			pushAttached = false
 		}
 	}
@@ -327,6 +349,49 @@ func runFanoutHistory(cfgTok, evTok string) string {
 			}
 		case "O":
 			stopInput()
+		case "Oq":
+			// end of the input immediately followed by whatever comes next: no waiting for the relay goroutines
+			if pubSession != nil {
+				if target != nil && pushAttached {
+					group.VerifFlushPushSessions()
+				}
+				group.DelRtmpPubSession(pubSession)
+				pubConn.Close()
+				pubSession = nil
+				if recDir != "" {
+					files, _ := filepath.Glob(filepath.Join(recDir, "*.flv"))
+					sort.Strings(files)
+					for _, fn := range files {
+						b, _ := ioutil.ReadFile(fn)
+						recs = append(recs, string(b))
+						os.Remove(fn)
+					}
+				}
+				pushAttached = false
+			}
+		case "K":
+			group.Tick(1)
+		case "S":
+			b := bytesTok(f[1])
+			sdpBlobs = append(sdpBlobs, b)
+			group.OnSdp(sdp.LogicContext{RawSdp: b})
+		case "D":
+			id := numTok(f[1])
+			if _, ok := consumers[id]; ok {
+				break
+			}
+			rs := rtsp.NewSubSession(base.UrlContext{}, nil)
+			_, raw := group.HandleNewRtspSubSessionDescribe(rs)
+			group.DelRtspSubSession(rs)
+			c := &fanConsumer{id: id, kind: 'd', conn: newFakeConn(nil), sdp: string(raw)}
+			consumers[id] = c
+			order = append(order, id)
+		case "B":
+			id := numTok(f[1])
+			if c, ok := consumers[id]; ok {
+				c.conn.breakWrites()
+				c.broken = true
+			}
 		case "P":
 			m := pubMsg{t: uint8(numTok(f[1])), ts: uint32(numTok(f[2])), payload: bytesTok(f[3])}
 			msg := base.RtmpMsg{Header: base.RtmpHeader{MsgLen: uint32(len(m.payload)), MsgTypeId: m.t, MsgStreamId: 1, TimestampAbs: m.ts}, Payload: m.payload}
@@ -399,6 +464,29 @@ func runFanoutHistory(cfgTok, evTok string) string {
 	// end of history: stop the input so that push targets and recordings are finalised
 	stopInput()
 
+	// every relay-push session the target saw must have been closed by the end of the history
+	pushOpen := -1
+	waitPushClosed := func() int {
+		if target == nil {
+			return 0
+		}
+		if pushOpen >= 0 {
+			return pushOpen
+		}
+		deadline := time.Now().Add(1500 * time.Millisecond)
+		open := 0
+		for {
+			target.mu.Lock()
+			open = target.opened - target.ended
+			target.mu.Unlock()
+			if open == 0 || time.Now().After(deadline) {
+				break
+			}
+			time.Sleep(time.Millisecond)
+		}
+		pushOpen = open
+		return open
+	}
 	type unit = struct {
 		name string
 		b    []byte
@@ -426,7 +514,21 @@ func runFanoutHistory(cfgTok, evTok string) string {
 	for _, id := range order {
 		c := consumers[id]
 		var lab string
+		if c.broken {
+			parts = append(parts, fmt.Sprintf("%d=!", id))
+			continue
+		}
 		switch c.kind {
+		case 'd':
+			lab = "-"
+			if len(c.sdp) > 0 {
+				lab = "?sdp"
+				for k, b := range sdpBlobs {
+					if string(b) == c.sdp {
+						lab = fmt.Sprintf("d%d", k)
+					}
+				}
+			}
 		case 'r':
 			lab = labelStream(c.conn.all(), rtmpUnits)
 		case 'f':
@@ -460,6 +562,13 @@ func runFanoutHistory(cfgTok, evTok string) string {
 		case 'p':
 			// what the push target decoded, per input epoch; labels by message equality
 			var segs []string
+			waitPushClosed()
+			target.mu.Lock()
+			pushSegments = nil
+			for _, ts := range target.sess {
+				pushSegments = append(pushSegments, ts.msgs)
+			}
+			target.mu.Unlock()
 			for _, seg := range pushSegments {
 				var ls []string
 				for _, rm := range seg {
@@ -514,6 +623,9 @@ func runFanoutHistory(cfgTok, evTok string) string {
 		}
 		parts = append(parts, "rec="+strings.Join(rl, "/"))
 	}
+	if target != nil {
+		parts = append(parts, fmt.Sprintf("popen=%d", waitPushClosed()))
+	}
 	if hooks != nil {
 		var hs []string
 		for _, e := range hooks.epochs {
@@ -536,4 +648,14 @@ func runFanoutHistory(cfgTok, evTok string) string {
 func init() {
 	httpts.SubSessionWriteChanSize = 0
 	register("c01.hist", func(a []string) string { return runFanoutHistory(a[0], a[1]) })
+	// the per-message conversions every consumer shares
+	register("c01.conv", func(a []string) string {
+		p := bytesTok(a[2])
+		msg := base.RtmpMsg{Header: base.RtmpHeader{MsgLen: uint32(len(p)), MsgTypeId: uint8(numTok(a[0])), MsgStreamId: 77, Csid: 99, TimestampAbs: uint32(numTok(a[1]))}, Payload: p}
+		var lcd remux.LazyRtmpChunkDivider
+		var l2t remux.LazyRtmpMsg2FlvTag
+		lcd.Init(msg.Clone())
+		l2t.Init(msg.Clone())
+		return fmt.Sprintf("%s %s %s", tokBytes(lcd.GetEnsureWithoutSdf()), tokBytes(lcd.GetEnsureWithSdf()), tokBytes(l2t.GetEnsureWithoutSdf()))
+	})
 }
